@@ -10,8 +10,8 @@ TRUST = [
 
 PROPS = {
     "C05": {
-        "rules": ["KEY", "LOOKUP", "FIFO", "REGISTRATION", "MSGKIND", "IDALLOC", "RSP-VARIANT", "SHORTFORM-EXACT", "THRESH", "HANDSHAKE-QOS2", "BUFFERED", "FRAMER-FRESH", "REPARSE", "MINHDR", "ACCUMULATE", "PROPLEN-GUARD", "HANDSHAKE-DUP"],
-        "filters": {"IDALLOC": r":rmw|:injective|floor", "SHORTFORM-EXACT": r"AckRx|floor", "THRESH": r"ContextHandle|floor", "HANDSHAKE-QOS2": r"pubrel-after-good|pubrel-always|floor",
+        "rules": ["KEY", "LOOKUP", "FIFO", "REGISTRATION", "MSGKIND", "IDALLOC", "RSP-VARIANT", "SHORTFORM-EXACT", "THRESH", "HANDSHAKE-QOS2", "BUFFERED", "FRAMER-FRESH", "REPARSE", "MINHDR", "ACCUMULATE", "PROPLEN-GUARD", "HANDSHAKE-DUP", "REASONS"],
+        "filters": {"REASONS": r"Puback|Pubrec|Pubcomp|Suback|Unsuback|floor", "IDALLOC": r":rmw|:injective|floor", "SHORTFORM-EXACT": r"AckRx|floor", "THRESH": r"ContextHandle|floor", "HANDSHAKE-QOS2": r"pubrel-after-good|pubrel-always|floor",
                     "ACCUMULATE": r"Suback|Unsuback|AckRx|floor"},
         "explanation": "Static rules over MIR: KEY (symbolic key expressions of tx_action_id / rx_action_id agree per request->acknowledgement pair of the standard, injective bit layout), "
                        "LOOKUP (every completion is sent on the sender removed at linear_search_by_key(awaiting_ack, rx_action_id(same packet))), FIFO (who may mutate Session collections and how), "
@@ -54,8 +54,8 @@ PROPS = {
         "assumptions": TRUST,
     },
     "C06": {
-        "rules": ["HANDSHAKE-DUP", "HANDSHAKE-QOS2", "THRESH", "MSGKIND", "QUOTA-DEC", "SHORTFORM-EXACT", "LOOKUP", "ENCODE-ONCE", "BUFFERED", "FRAMER-FRESH", "REPARSE", "MINHDR", "WRITE", "LM-PRIM", "KEY", "PROPLEN-GUARD"],
-        "filters": {"QUOTA-DEC": r"quota-read-only-for-publish|zero-edge-refuses|floor", "SHORTFORM-EXACT": r"AckRx|floor", "ENCODE-ONCE": r"publish|floor", "WRITE": r"asyncwrite|write_all|floor",
+        "rules": ["HANDSHAKE-DUP", "HANDSHAKE-QOS2", "THRESH", "MSGKIND", "QUOTA-DEC", "SHORTFORM-EXACT", "LOOKUP", "ENCODE-ONCE", "BUFFERED", "FRAMER-FRESH", "REPARSE", "MINHDR", "WRITE", "LM-PRIM", "KEY", "PROPLEN-GUARD", "REASONS", "RESUME-ORDER", "OWN"],
+        "filters": {"OWN": r"request-queue-read-only-in-run|floor", "REASONS": r"Puback|Pubrec|Pubcomp|floor", "RESUME-ORDER": r"replay-front-to-back|replay-only-on-reconnect|anchor-lost|floor", "QUOTA-DEC": r"quota-read-only-for-publish|zero-edge-refuses|floor", "SHORTFORM-EXACT": r"AckRx|floor", "ENCODE-ONCE": r"publish|floor", "WRITE": r"asyncwrite|write_all|floor",
                     "LM-PRIM": r"UTF8String|Payload|Binary|NonZero|u16|floor"},
         "explanation": "Dominance rules on MIR: the DUP bit is set on the stored copy only (after the completed first write, before the push to the retransmission queue), the PUBREL identifier derives from the received PUBREC, "
                        "the PUBREL enqueue is dominated by the Continue edge of the `?` over the PUBREC reason check, QoS 0 completes after its write, reason thresholds are exactly 0x80 with Err on the failing side, one PUBLISH enqueue per QoS branch. KEY (the exchange key keeps every bit of the packet identifier: shifts happen on the widened value). PROPLEN-GUARD (an acknowledgement with long properties is decoded, not refused).",
@@ -81,7 +81,7 @@ PROPS = {
     },
     "C13": {
         "rules": ["EXITS", "EXITS-EXPLICIT", "EXITS-OK", "EXITS-END", "FIRST-RESPONSE", "THRESH", "CONV", "WRITE", "SHORTFORM-EXACT", "REPARSE", "BUFFERED", "MINHDR", "RXHDR", "FRAMER-FRESH", "OWN", "FULLFORM", "PROPLEN-GUARD", "DECODE-ERR-CAUSE", "MANDATORY"],
-        "filters": {"FULLFORM": r"ConnackRx|floor", "WRITE": r"WRITE:site:|floor", "SHORTFORM-EXACT": r"DisconnectRx|floor", "OWN": r"no-explicit-close|context-holds-no-request-sender|floor"},
+        "filters": {"FULLFORM": r"ConnackRx|floor", "WRITE": r"WRITE:site:|floor", "SHORTFORM-EXACT": r"DisconnectRx|floor", "OWN": r"no-explicit-close|context-holds-no-request-sender|request-queue-read-only-in-run|floor"},
         "explanation": "Complete table of the exits of Context::run (recursively through handle_packet / handle_message / ack / retransmit), each classified by the residual error type of its `?` and what produced it; explicit returns; "
                        "required Ok(()) exits and what they are control dependent on; the end of the request queue / packet stream ends run() at once (EXITS-END); decoders of run()-phase packets test the whole fixed-header byte (RXHDR); buffered packets are served before the next read (BUFFERED); first-response table of connect()/authorize(); reason thresholds; From<..> for MqttError variant table. No handle operation closes the request queue (OWN no-explicit-close); framing state never outlives its transport, so the CONNACK of a new connection is framed from its own bytes (FRAMER-FRESH); CONNACK is decoded to its end (FULLFORM). OWN context-holds-no-request-sender (HandleClosed is reachable: the context keeps no handle); DECODE-ERR-CAUSE / MANDATORY / PROPLEN-GUARD (run() ends with a codec error for undecodable input only).",
         "not_decided": "'at every reachable session state': the exits do not consult session state, which is stated rather than explored",
